@@ -295,8 +295,8 @@ Proof.
   | |- (if ?c then _ else _) = Ok _ -> _ => destruct c
   end; intros H;
   first
-    [ exact (u16_list_write_nq _ _ _ _ _ (fun _ => eq_refl) H)
-    | exact (protos_write_nq _ _ _ (fun _ => eq_refl) H)
+    [ refine (u16_list_write_nq _ _ _ _ _ _ H); intros; reflexivity
+    | refine (protos_write_nq _ _ _ _ H); intros; reflexivity
     | discriminate H
     | inversion H; reflexivity
     | unfold fake_psk_write in H; inv_ok H; inversion H; reflexivity
